@@ -10,6 +10,9 @@ import JP.Basic
 import JP.Pointer
 import JP.RelPointer
 import JP.Patch
+import JP.Query
+import JP.Rfc9535
+import JP.RegexImpl
 open Lean JP
 
 namespace Drv
@@ -165,6 +168,91 @@ def decSOp (j : Json) : Except String Patch.SOp := do
   | "test" => pure (.test (← getStrList j "path") (← getJ j "value"))
   | o => throw s!"bad spec op {o}"
 
+
+/-! Query AST decoding (the harness dumps the implementation's compiled query). -/
+def optInt (j : Json) : Except String (Option Int) :=
+  match j with
+  | .null => pure none
+  | .num n => pure (some n.mantissa)
+  | _ => throw "expected int or null"
+
+def decOp (s : String) : Except String CmpOp :=
+  match s with
+  | "==" => pure .eq | "!=" => pure .ne | "<" => pure .lt | ">" => pure .gt | "<=" => pure .le
+  | ">=" => pure .ge | "<>" => pure .lg | "&&" => pure .and | "||" => pure .or
+  | "in" => pure .in_ | "contains" => pure .contains | "=~" => pure .re
+  | o => throw s!"unknown operator {o}"
+
+mutual
+  partial def decExpr (j : Json) : Except String Expr := do
+    let t ← j.getObjValAs? String "t"
+    match t with
+    | "nil" => pure .nil
+    | "undef" => pure .undefined
+    | "bool" => pure (.bool (← j.getObjValAs? Bool "v"))
+    | "int" =>
+      let v ← j.getObjVal? "v"
+      let .num n := v | throw "int"
+      pure (.int n.mantissa)
+    | "flt" =>
+      let v ← j.getObjVal? "m"
+      let .num n := v | throw "flt"
+      pure (.flt n.mantissa)
+    | "str" => pure (.str (s2l (← j.getObjValAs? String "v")))
+    | "regex" => pure (.regex (s2l (← j.getObjValAs? String "p")) (s2l (← j.getObjValAs? String "f")))
+    | "list" =>
+      let items ← j.getObjVal? "items"
+      let .arr xs := items | throw "list"
+      pure (.list (← xs.toList.mapM decExpr))
+    | "not" => pure (.not (← decExpr (← j.getObjVal? "e")))
+    | "infix" =>
+      pure (.infix (← decExpr (← j.getObjVal? "l")) (← decOp (← j.getObjValAs? String "op")) (← decExpr (← j.getObjVal? "r")))
+    | "self" => pure (.self (← decSegs (← j.getObjVal? "q")))
+    | "root" => pure (.root (← decSegs (← j.getObjVal? "q")) (← j.getObjValAs? Bool "fake"))
+    | "ctx" => pure (.ctx (← decSegs (← j.getObjVal? "q")))
+    | "func" =>
+      let args ← j.getObjVal? "args"
+      let .arr xs := args | throw "args"
+      pure (.func (s2l (← j.getObjValAs? String "name")) (← xs.toList.mapM decExpr))
+    | "key" => pure .key
+    | o => throw s!"unknown expr {o}"
+
+  partial def decSel (j : Json) : Except String Sel := do
+    let t ← j.getObjValAs? String "s"
+    match t with
+    | "name" => pure (.name (s2l (← j.getObjValAs? String "v")))
+    | "index" =>
+      let v ← j.getObjVal? "v"
+      let .num n := v | throw "index"
+      pure (.index n.mantissa)
+    | "slice" => pure (.slice (← optInt (← j.getObjVal? "a")) (← optInt (← j.getObjVal? "b")) (← optInt (← j.getObjVal? "c")))
+    | "wild" => pure .wild
+    | "keys" => pure .keys
+    | "filter" => pure (.filter (← decExpr (← j.getObjVal? "e")))
+    | o => throw s!"unknown selector {o}"
+
+  partial def decSegs (j : Json) : Except String (List Seg) := do
+    let .arr xs := j | throw "segs"
+    xs.toList.mapM (fun g => do
+      let t ← g.getObjValAs? String "g"
+      match t with
+      | "desc" => pure Seg.desc
+      | "child" =>
+        let sels ← g.getObjVal? "sels"
+        let .arr ss := sels | throw "sels"
+        pure (Seg.child (← ss.toList.mapM decSel))
+      | o => throw s!"unknown segment {o}")
+end
+
+def decPath (j : Json) : Except String Path := do
+  pure ⟨← decSegs (← j.getObjVal? "segs"), ← j.getObjValAs? Bool "fake"⟩
+
+def encNode (n : Node) : Json :=
+  Json.mkObj [("parts", encParts n.parts), ("path", .str (l2s n.path)), ("val", encJ n.val)]
+
+def encRNode (n : Rfc.RNode) : Json :=
+  Json.mkObj [("path", .str (l2s (Rfc.normalizedPath n.loc))), ("val", encJ n.val)]
+
 def handle (req : Json) : Except String Json := do
   let op ← req.getObjVal? "op"
   let .str op := op | throw "op must be a string"
@@ -285,6 +373,32 @@ def handle (req : Json) : Except String Json := do
     let sops ← ops.toList.mapM decSOp
     let doc ← getJ req "doc"
     pure (Json.mkObj [("result", encSpecRes (Patch.rfcApply sops doc))])
+  -- JSONPath evaluation
+  | "q.eval" =>
+    let path ← decPath (← req.getObjVal? "path")
+    let doc ← getJ req "doc"
+    let extra ← getJ req "extra"
+    let nodes := Query.finditer RegexImpl.rx path doc extra
+    let specPath ← match req.getObjVal? "spec_path" with
+      | .ok j => decPath j
+      | .error _ => pure path
+    let std := !specPath.fake && Rfc.stdSegs specPath.segs && Rfc.wellFormedSegs specPath.segs
+    let spec := if std then (Rfc.query RegexImpl.rx specPath.segs doc).map encRNode else []
+    pure (Json.mkObj [("nodes", .arr (nodes.map encNode).toArray), ("std", .bool std), ("spec", .arr spec.toArray)])
+  | "q.slice" =>
+    let len ← req.getObjValAs? Nat "len"
+    let a ← optInt (← req.getObjVal? "a")
+    let b ← optInt (← req.getObjVal? "b")
+    let c ← optInt (← req.getObjVal? "c")
+    let st := c.getD 1
+    let code : List Int := if st = 0 then [] else
+      let (s, e) := Query.sliceIndices a b st len
+      Query.pyRange s e st
+    let spec := Rfc.sliceIndices a b c len
+    pure (Json.mkObj [("code", .arr (code.map (fun i => Json.num ⟨i, 0⟩)).toArray), ("spec", .arr (spec.map (fun i => Json.num ⟨i, 0⟩)).toArray)])
+  | "q.canon" =>
+    let s ← getStr req "s"
+    pure (Json.mkObj [("canon", .str (l2s (Query.canonicalString s))), ("normal", .str (l2s (Rfc.normalName s)))])
   | "json.eqv" =>
     let a ← getJ req "a"
     let b ← getJ req "b"
